@@ -125,3 +125,78 @@ class BatchDouble:
                    types={"res": "list[point]"}, keep={"g_K"})}
   var_types = {"tmp": "list[Optional[int]]", "res": "list[point]"}
   props = ["C11"]
+
+
+@contract(f"{E}::EcCurve.BatchJacobianToX")
+class BatchJacobianToX:
+  """Ring pass: every finite entry is X w^2 with w Z == 1 (mod p) (the x-coordinate of JacobianToAffine); value pass: one
+  slot per triple, None exactly for Z == 0."""
+  params = {"p_list": "list[jpoint]"}
+  self_fields = F
+  returns = "list[Optional[int]]"
+  congruence_mod = "self.mod"
+  requires = CURVE_REQ
+  raises = {"ArithmeticError": None}
+  SHAPE = "forall(k, 0, len(p_list), (result[k] is None) == (p_list[k][2] == 0))"
+  ensures = [("C11", "len(result) == len(p_list)")]
+  caller_ensures = ["len(result) == len(p_list)", SHAPE]
+  entry_ghost = ["g_K = 0"]
+  on_call = {BINV: [GK, "assert [C11] forall(k, 0, len(p_list), ret[k] is None or ret[k] * p_list[k][2] == 1 + self.mod * g_K)"]}
+  on_assign = {"wsqr": ["assert [C11] w * p[2] == 1 + self.mod * g_K", "euclid(w * p[2] - 1, self.mod, 0, g_K)",
+                        "assert [C11] (w * p[2] - 1) % self.mod == 0", "assert [C11] wsqr == w * w"]}
+  loops = {0: dict(invariant=["len(res) == len(p_list)", "len(inverses) == len(p_list)",
+                              "forall(k, 0, len(p_list), (inverses[k] is None) == (p_list[k][2] == 0))",
+                              "forall(k, 0, len(p_list), (res[k] is None) == (p_list[k][2] == 0 or k >= i))",
+                              ("C11", "forall(k, 0, len(p_list), inverses[k] is None or "
+                                      "inverses[k] * p_list[k][2] == 1 + self.mod * g_K)")],
+                   types={"res": "list[Optional[int]]"}, keep={"g_K"},
+                   # `i` is already the next index here: this iteration wrote res[i - 1]
+                   body_end=[("C11", "implies(inverses[i - 1] is not None, res[i - 1] == p_list[i - 1][0] * "
+                                     "(inverses[i - 1] * inverses[i - 1]))")])}
+  var_types = {"res": "list[Optional[int]]"}
+  props = ["C11"]
+
+
+def chord_x(xv, v, x1, y1, x2, y2):
+  """Inverse-free x-coordinate of the chord law for the entry just written: xv * d^2 == e^2 - (x1 + x2) d^2 (mod p)."""
+  d, e, s_ = f"({x1} - {x2})", f"({y1} - ({y2}))", f"({x1} + {x2})"
+  K2 = f"({e} * {e} * g_K * (2 + self.mod * g_K))"
+  return ["begin_scope",
+          f"assert [C11] {v} * {d} == 1 + self.mod * g_K",
+          f"assert [C11] by(t * {d} == {e} + self.mod * ({e} * g_K), t == {v} * {e}, {v} * {d} == 1 + self.mod * g_K)",
+          f"assert [C11] by((t * {d}) * (t * {d}) == {e} * {e} + self.mod * {K2}, t * {d} == {e} + self.mod * ({e} * g_K))",
+          f"assert [C11] by({xv} * {d} * {d} - {e} * {e} + {s_} * {d} * {d} == self.mod * {K2}, "
+          f"{xv} == t * t - {x1} - {x2}, (t * {d}) * (t * {d}) == {e} * {e} + self.mod * {K2})",
+          f"euclid({xv} * {d} * {d} - {e} * {e} + {s_} * {d} * {d}, self.mod, 0, {K2})",
+          f"assert [C11] ({xv} * {d} * {d} - {e} * {e} + {s_} * {d} * {d}) % self.mod == 0",
+          "end_scope"]
+
+
+@contract(f"{E}::EcCurve.BatchAddSubtractX")
+class BatchAddSubtractX:
+  """Ring pass: sums[i] / diffs[i] computed by the shared-inversion branch are the x-coordinates of p + q_i and
+  p - q_i = p + (x_i, -y_i) by the chord law (inverse-free form, see BatchAddX)."""
+  params = {"p": "point", "points": "list[point]"}
+  self_fields = F
+  returns = "tuple[list[Optional[int]],list[Optional[int]]]"
+  congruence_mod = "self.mod"
+  requires = BatchAdd.requires
+  raises = {"ArithmeticError": None}
+  ensures = [("C11", "len(result[0]) == len(points) and len(result[1]) == len(points)")]
+  caller_ensures = ["len(result[0]) == len(points) and len(result[1]) == len(points)"]
+  entry_ghost = ["g_K = 0"]
+  on_call = {BINV: [GK, "assert [C11] forall(k, 0, len(points), ret[k] is None or "
+                        "ret[k] * (p[0] - points[k][0]) == 1 + self.mod * g_K)"]}
+  # sums#0 / diffs#0 are the two initialisations are Name targets; the element assignments in the loop: #0 formula, #1 fallback
+  on_assign = {"sums#0": chord_x("sums[i]", "v", "p[0]", "p[1]", "q[0]", "q[1]"),
+               "diffs#0": chord_x("diffs[i]", "v", "p[0]", "p[1]", "q[0]", "0 - q[1]")}
+  loops = {0: dict(invariant=["len(tmp) == len(points)",
+                              ("C11", "forall(k, 0, i, implies(tmp[k] is not None, tmp[k] == p[0] - points[k][0]))"),
+                              ("C11", "forall(k, i, len(points), tmp[k] is None)")],
+                   types={"tmp": "list[Optional[int]]"}),
+           1: dict(invariant=["len(tmp) == len(points)", "len(sums) == len(points)", "len(diffs) == len(points)",
+                              ("C11", "forall(k, 0, len(points), tmp[k] is None or "
+                                      "tmp[k] * (p[0] - points[k][0]) == 1 + self.mod * g_K)")],
+                   types={"sums": "list[Optional[int]]", "diffs": "list[Optional[int]]"}, keep={"g_K"})}
+  var_types = {"tmp": "list[Optional[int]]", "sums": "list[Optional[int]]", "diffs": "list[Optional[int]]"}
+  props = ["C11"]
